@@ -259,6 +259,8 @@ def run_case(case):
         gc.collect()
         if world.outcome == "deadlock":
             viol.append({"clause": "hang", "subject": subject, "detail": "simulation deadlocked"})
+        elif common.frozen_violation(world):
+            viol.append(common.frozen_violation(world, subject))
         elif world.outcome not in ("ok", "budget"):
             raise common.HarnessError(f"scenario failed: {world.outcome}: {world.error!r}")
         for e in world.loop.exc_log:
